@@ -1463,6 +1463,14 @@ pub fn call_end() -> u64 {
     }
 }
 
+/// A scheduling point without a memory operation: user code that takes a while (a serializer, a
+/// projection) and may be interrupted there.
+pub fn sched_yield() {
+    if let Some(me) = current_tid() {
+        sched_point(me);
+    }
+}
+
 /// Declares the calling model thread atomic (see `Config::k`).
 pub fn atomic_thread() {
     if let Some(me) = current_tid() {
